@@ -16,15 +16,17 @@ def evaluate(ctx, boxes, cfgs):
     corr = Corr()
     corr.add_obl("nd_map_set"); corr.add_obl("nd_map_seq")
     exes = L.build(ctx, cfgs, what=("numeric",))
-    mout = C.run_driver("driver", ["ndmap " + " ".join(map(str, sz)) for sz in boxes], timeout_per_line=0.2)
+    boxes = [b if isinstance(b, tuple) else ("u64", b) for b in boxes]
+    mout = C.run_driver("driver", ["ndmap " + " ".join(map(str, sz)) for ty, sz in boxes], timeout_per_line=0.2)
     for cfg in cfgs:
-        outs, _ = C.run_lines(exes[("numeric", cfg)], [f"ndmap {len(sz)} " + " ".join(map(str, sz)) for sz in boxes], timeout_per_line=0.2)
-        for sz, o, m in zip(boxes, outs, mout):
+        outs, _ = C.run_lines(exes[("numeric", cfg)], [(f"ndmap {len(sz)} " if ty == "u64" else f"ndmapt {ty} {len(sz)} ") + " ".join(map(str, sz))
+                                                       for ty, sz in boxes], timeout_per_line=0.2)
+        for (ty, sz), o, m in zip(boxes, outs, mout):
             corr.configs[cfg] += 1
-            corr.case((sz, cfg), len(sz) >= 2)
-            corr.dist[f"dim{len(sz)}/" + ("empty" if L.prod(sz) == 0 else "one" if L.prod(sz) == 1 else "many")] += 1
-            cj = {"sz": sz, "cfg": cfg}
-            key = {"kind": "ndmap", "sz": sz}
+            corr.case((ty, sz, cfg), len(sz) >= 2)
+            corr.dist[f"{ty}/dim{len(sz)}/" + ("empty" if L.prod(sz) == 0 else "one" if L.prod(sz) == 1 else "many")] += 1
+            cj = {"ty": ty, "sz": sz, "cfg": cfg}
+            key = {"kind": "ndmap", "ty": ty, "sz": sz}
             if o.startswith("CRASH") or o == "unsupported":
                 corr.add_obl("nd_map_set", 1, 1)
                 corr.violation("nd_map_set", f"nd_map over {sz}: {o}", cj, impl=o, oracle_fails=True, key=key, cfg=cfg)
@@ -70,9 +72,20 @@ def run(ctx):
         while L.prod(sz) > cap:
             sz[rnd.randrange(N)] = rnd.choice([1, 2])
         boxes.append(sz)
+    # tuple types with a narrower value type: every extent fits the type, the box volume need not
+    for ty, top in (("u8", 255), ("u16", 65535), ("u32", 2 ** 32 - 1), ("i32", 2 ** 31 - 1)):
+        for N in (1, 2, 3, 4):
+            for _ in range(6 if ctx.quick else 40):
+                pool = [0, 1, 2, 3, 7, 15, 16, 17, 20, 31, 40, 255, 256, 300, 1000]
+                sz = [min(top, rnd.choice(pool)) for _ in range(N)]
+                cap = 70000 if ctx.quick else 400000
+                while L.prod(sz) > cap:
+                    k = max(range(N), key=lambda j: sz[j]); sz[k] = rnd.choice([1, 2, 16, 20])
+                boxes.append((ty, sz))
+        boxes.append((ty, [16, 16])); boxes.append((ty, [20, 20])); boxes.append((ty, [255] if ty == "u8" else [300, 300] if ctx.quick else [300, 300]))
     return evaluate(ctx, boxes, ["dbg", "rel"])
 
 
 def replay(ctx):
     c = ctx.replay["case"]
-    return evaluate(ctx, [c["sz"]], [c.get("cfg", "dbg")])
+    return evaluate(ctx, [(c.get("ty", "u64"), c["sz"])], [c.get("cfg", "dbg")])
